@@ -33,7 +33,7 @@ CHECKS = {
         "bounds": {}, "assumptions": [],
     },
     "C08": {
-        "runs": [dict(RELUTIL, entries=["H08Partition", "H08Order", "H08SplitOrder"], bounds_quick={"files": 1, "docs": 2, "kinds": 5, "odocs": 3, "docindex": 9999}, bounds_thorough={"files": 2, "docs": 2, "kinds": 7, "odocs": 4, "docindex": 999999},
+        "runs": [dict(RELUTIL, entries=["H08Partition", "H08Order", "H08SplitOrder"], bounds_quick={"files": 1, "docs": 2, "kinds": 5, "odocs": 3, "docindex": 9999}, bounds_thorough={"files": 1, "docs": 3, "kinds": 7, "odocs": 4, "docindex": 99999},
                       optional_sites=["partition/partials-never-applied"]),
                  dict(pkg="./pkg/kube", files=["pkg/kube/h_c02_update.go", "pkg/kube/h_c08_barrier.go"], entries=["H08Barrier"], bounds_quick={"objects": 3}, bounds_thorough={"objects": 4})],
         "bounds": {}, "assumptions": [],
@@ -70,18 +70,18 @@ CHECKS = {
         "bounds": {}, "assumptions": [],
     },
     "C02": {
-        "runs": [dict(pkg="./pkg/kube", files=["pkg/kube/h_c02_update.go"], entries=["H02Update", "H02Delete"], bounds_quick={"objects": 2}, bounds_thorough={"objects": 3}),
+        "runs": [dict(pkg="./pkg/kube", files=["pkg/kube/h_c02_update.go"], entries=["H02Update", "H02Delete"], bounds_quick={"objects": 2, "spaces": 2}, bounds_thorough={"objects": 3, "spaces": 1}),
                  dict(ACTION, entries=["H02Uninstall", "H02Hist"], bounds_quick={"docs": 2}, bounds_thorough={"docs": 3}, limits={"max_instrs": 20000000, "max_decisions": 2000})],
         "bounds": {}, "assumptions": [],
     },
     "C03": {
-        "runs": [dict(ACTION, entries=["H03Hist", "H03AtomicAfterFailed"], bounds_quick={"depth": 2, "faults": 1, "crashes": 0, "maxhist": 1}, bounds_thorough={"depth": 3, "faults": 1, "crashes": 0, "maxhist": 1},
+        "runs": [dict(ACTION, entries=["H03Hist", "H03AtomicAfterFailed"], bounds_quick={"depth": 2, "faults": 1, "crashes": 0, "maxhist": 1}, bounds_thorough={"depth": 2, "faults": 2, "crashes": 0, "maxhist": 2},
                       limits={"max_instrs": 20000000, "max_decisions": 2000})],
         "bounds": {}, "assumptions": [],
     },
     "C05": {
         "runs": [dict(ACTION, entries=["H05Order"], limits={"max_instrs": 20000000, "max_decisions": 2000}),
-                 dict(RELUTIL, entries=["H08SplitOrder"], bounds_quick={"docindex": 9999}, bounds_thorough={"docindex": 999999}),
+                 dict(RELUTIL, entries=["H08SplitOrder"], bounds_quick={"docindex": 9999}, bounds_thorough={"docindex": 99999}),
                  dict(pkg="./pkg/engine", files=["pkg/engine/h_c05_hermetic.go"], entries=["H05Hermetic", "H05Files"], bounds_quick={"fnamelen": 3}, bounds_thorough={"fnamelen": 5}),
                  dict(pkg="./pkg/engine", files=["pkg/engine/h_c05_renderorder.go"], entries=["H05RenderOrder"])],
         "bounds": {}, "assumptions": [],
@@ -92,7 +92,7 @@ CHECKS = {
     },
     "C12": {
         "runs": [dict(ACTION, entries=["H12Exec", "H12Gate"], bounds_quick={"hooks": 2, "faults": 1}, bounds_thorough={"hooks": 3, "faults": 1}, limits={"max_instrs": 20000000, "max_decisions": 2000}),
-                 dict(pkg="./pkg/release/util", files=["pkg/release/util/h_c12_weight.go"], entries=["H12Weight"], bounds_quick={"maxweight": 9999}, bounds_thorough={"maxweight": 999999})],
+                 dict(pkg="./pkg/release/util", files=["pkg/release/util/h_c12_weight.go"], entries=["H12Weight"], bounds_quick={"maxweight": 9999}, bounds_thorough={"maxweight": 99999})],
         "bounds": {}, "assumptions": [],
     },
     "C07": {
@@ -100,7 +100,7 @@ CHECKS = {
         "bounds": {}, "assumptions": [],
     },
     "C13": {
-        "runs": [dict(ACTION, entries=["H13Reuse", "H13Rollback", "H13Deployed", "H13Chain"], bounds_quick={"depth": 1, "slim": 1, "defdepth": 0, "chainsteps": 2}, bounds_thorough={"depth": 2, "slim": 1, "defdepth": 1, "chainsteps": 3}, limits={"max_instrs": 20000000, "max_decisions": 2000})],
+        "runs": [dict(ACTION, entries=["H13Reuse", "H13Rollback", "H13Deployed", "H13Chain"], bounds_quick={"depth": 1, "slim": 1, "defdepth": 0, "chainsteps": 2}, bounds_thorough={"depth": 2, "slim": 1, "defdepth": 0, "chainsteps": 3}, limits={"max_instrs": 20000000, "max_decisions": 2000})],
         "bounds": {}, "assumptions": [],
     },
     "C14": {
@@ -114,15 +114,15 @@ CHECKS = {
         "bounds": {}, "assumptions": [],
     },
     "C10": {
-        "runs": [dict(STORAGE, entries=["H10MemStep"], bounds_quick={"recs": 2, "namelen": 3, "maxver": 9}, bounds_thorough={"recs": 2, "namelen": 4, "maxver": 99}),
+        "runs": [dict(STORAGE, entries=["H10MemStep"], bounds_quick={"recs": 2, "namelen": 3, "maxver": 9}, bounds_thorough={"recs": 2, "namelen": 3, "maxver": 99}),
                  dict(pkg="./pkg/storage/driver", files=["pkg/storage/driver/h_c10_backends.go"], entries=["H10Backends", "H10ReadModifyWrite"],
-                      bounds_quick={"recs": 1, "maxver": 2, "labels": 4}, bounds_thorough={"recs": 2, "maxver": 3, "labels": 4})],
+                      bounds_quick={"recs": 1, "maxver": 2, "labels": 4}, bounds_thorough={"recs": 2, "maxver": 2, "labels": 2})],
         "bounds": {}, "assumptions": [],
     },
     "C04": {
         "runs": [
             dict(STRVALS, entries=["H04SetScalar", "H04SetTyped", "H04SetNumeric", "H04SetEscapes", "H04SetList", "H04SetLiteral", "H04SetFrame"],
-                 bounds_quick={"maxlen": 5, "numlen": 4}, bounds_thorough={"maxlen": 7, "numlen": 5}),
+                 bounds_quick={"maxlen": 5, "numlen": 4}, bounds_thorough={"maxlen": 6, "numlen": 5}),
             dict(pkg="./pkg/cli/values", files=["pkg/cli/values/h_c04_flags.go"], entries=["H04Flags"], bounds_quick={"sources": 8, "modes": 3}, bounds_thorough={"sources": 8, "modes": 4}, optional_sites=["flags/m.b/highest-precedence-source"]),
             dict(CHARTUTIL, entries=["H04Coalesce"], bounds_quick={"depth": 2, "slim": 1, "lists": 1}, bounds_thorough={"depth": 2, "slim": 0, "lists": 1}),
             dict(CHARTUTIL, entries=["H11Scope"], bounds_quick={"depth": 2, "slim": 1, "pdepth": 0, "lists": 0}, bounds_thorough={"depth": 2, "slim": 1, "pdepth": 0, "lists": 1}),
